@@ -622,13 +622,19 @@ func (w *World) advNewView(b int, h, v uint64, tag string) bool {
 		blk, hash = fb, fb.Hash()
 	}
 	if tag == "byz.nv-hash-mismatch" {
-		switch w.ch.Pick("nv-mismatch", 3) {
+		switch w.ch.Pick("nv-mismatch", 4) {
 		case 0: // embedded header commits to another hash than the block / proof
 			hash = w.freshBlock(h, b, false).Hash()
 		case 1: // attached block differs
 			blk = w.freshBlock(h, b, false)
 		case 2:
 			blk = nil
+		case 3: // the header re-uses the hash of a proposal the nodes accepted in an earlier view; another block is attached
+			if props := w.seenProposals(h, -1); len(props) > 0 {
+				hash = props[w.ch.Pick("nv-known-hash", len(props))].Ref.Hash
+				w.probe("nv-known-hash-other-block")
+			}
+			blk = w.freshBlock(h, b, false)
 		}
 	}
 	ppHdr := refBuilder(protocol.LEAN_HELIX_PREPREPARE, w.instance, h, tv, hash)
